@@ -97,6 +97,7 @@ func (c WTLengthSliceWrapper) size(ptr unsafe.Pointer) int {
 	h := *(*sliceHeader)(ptr)
 	size := plenccore.SizeVarUint(uint64(h.Len))
 	for i := 0; i < h.Len; i++ {
+		verifYield("slice.size")
 		s := c.Underlying.Size(unsafe.Pointer(uintptr(h.Data)+uintptr(i)*c.EltSize), nil)
 		size += s + plenccore.SizeVarUint(uint64(s))
 	}
@@ -111,6 +112,7 @@ func (c WTLengthSliceWrapper) append(data []byte, ptr unsafe.Pointer) []byte {
 	data = plenccore.AppendVarUint(data, uint64(h.Len))
 	// Append each of the items. They're all prefixed by their length
 	for i := 0; i < h.Len; i++ {
+		verifYield("slice.encode")
 		ptr := unsafe.Pointer(uintptr(h.Data) + uintptr(i)*c.EltSize)
 		data = plenccore.AppendVarUint(data, uint64(c.Underlying.Size(ptr, nil)))
 		data = c.Underlying.Append(data, ptr, nil)
@@ -377,6 +379,7 @@ func (c ProtoSliceWrapper) Size(ptr unsafe.Pointer, tag []byte) int {
 	h := *(*sliceHeader)(ptr)
 	var l int
 	for i := 0; i < h.Len; i++ {
+		verifYield("slice.size")
 		l += c.Underlying.Size(unsafe.Add(h.Data, uintptr(i)*c.EltSize), tag)
 	}
 	return l
@@ -387,6 +390,7 @@ func (c ProtoSliceWrapper) Size(ptr unsafe.Pointer, tag []byte) int {
 func (c ProtoSliceWrapper) Append(data []byte, ptr unsafe.Pointer, tag []byte) []byte {
 	h := *(*sliceHeader)(ptr)
 	for i := 0; i < h.Len; i++ {
+		verifYield("slice.encode")
 		data = c.Underlying.Append(data, unsafe.Pointer(uintptr(h.Data)+uintptr(i)*c.EltSize), tag)
 	}
 	return data
